@@ -1,3 +1,118 @@
 import ViaProofs.Statements
+import ViaProofs.C01
+/-
+  C02 — malformed or over-limit requests are never accepted; documented status; limit edges.
+
+  Fragmentation-independence of the verdict for everything detected in the request head is
+  `RR.receive_head_fail_seq` / `RR.feedHead_flatten` (ViaProofs/C01.lean, from the parser laws in Frag/).
+  This file proves the decision logic itself, for EVERY configuration and every value of the limits:
+  at the limit accepted, one beyond rejected, and the status code the receiver proposes per violation class.
+-/
 namespace Via
+
+/-! ### limit edges of the request line (∀ limit values) -/
+
+theorem C02_method_at_limit (cfg : Cfg) (s : RL) (c : Byte) (hs : s.st = .method) (hu : isUpper c = true)
+    (hl : s.method.length < cfg.maxMethod) :
+    (s.parseChar cfg c).2 = true ∧ (s.parseChar cfg c).1.method = s.method ++ [c] := by
+  unfold RL.parseChar
+  simp only [hs, hu, ↓reduceIte]
+  have : ¬ cfg.maxMethod < s.method.length + 1 := by omega
+  simp [this]
+
+theorem C02_method_beyond (cfg : Cfg) (s : RL) (c : Byte) (hs : s.st = .method) (hu : isUpper c = true)
+    (hl : s.method.length = cfg.maxMethod) :
+    (s.parseChar cfg c).2 = false ∧ (s.parseChar cfg c).1.st = .errMethodLength := by
+  unfold RL.parseChar
+  simp only [hs, hu, ↓reduceIte]
+  have : cfg.maxMethod < s.method.length + 1 := by omega
+  simp [this]
+
+theorem C02_uri_at_limit (cfg : Cfg) (s : RL) (c : Byte) (hs : s.st = .uri) (he : isEol c = false)
+    (hb : isBlank c = false) (hl : s.uri.length < cfg.maxUri) :
+    (s.parseChar cfg c).2 = true ∧ (s.parseChar cfg c).1.uri = s.uri ++ [c] := by
+  unfold RL.parseChar
+  simp only [hs, he, hb, Bool.false_eq_true, ↓reduceIte]
+  have : ¬ cfg.maxUri < s.uri.length + 1 := by omega
+  simp [this]
+
+theorem C02_uri_beyond (cfg : Cfg) (s : RL) (c : Byte) (hs : s.st = .uri) (he : isEol c = false)
+    (hb : isBlank c = false) (hl : s.uri.length = cfg.maxUri) :
+    (s.parseChar cfg c).2 = false ∧ (s.parseChar cfg c).1.st = .errUriLength := by
+  unfold RL.parseChar
+  simp only [hs, he, hb, Bool.false_eq_true, ↓reduceIte]
+  have : cfg.maxUri < s.uri.length + 1 := by omega
+  simp [this]
+
+/-- blanks in front of the target: exactly `maxWs` are accepted (the first one is consumed in state METHOD) -/
+theorem C02_ws_before_target (cfg : Cfg) (s : RL) (c : Byte) (hs : s.st = .uri) (hb : isBlank c = true)
+    (hu : s.uri = []) :
+    (s.parseChar cfg c).2 = decide (s.ws + 1 ≤ cfg.maxWs) := by
+  have he : isEol c = false := by
+    unfold isBlank at hb; unfold isEol
+    simp only [Bool.or_eq_true, beq_iff_eq] at hb
+    rcases hb with h | h <;> subst h <;> decide
+  unfold RL.parseChar
+  simp only [hs, he, hb, hu, Bool.false_eq_true, ↓reduceIte, List.isEmpty_nil, Bool.not_true]
+  by_cases h : s.ws + 1 > cfg.maxWs
+  · simp [h]
+  · simp [h]; omega
+
+/-! ### the proposed status per violation class (the non-chunked branch of `receive`) -/
+
+theorem C02_content_length_invalid (cfg : Cfg) (r : RR) (p : Bool) (buf : Bytes)
+    (ht : r.request.isTrace = false) (hcl : r.request.headers.contentLength < 0) :
+    (RR.receiveBody cfg r p buf).2.2 = .invalid ∧ (RR.receiveBody cfg r p buf).1.code = 400 := by
+  unfold RR.receiveBody
+  simp [ht, hcl, RR.clear]
+
+theorem C02_content_length_too_large (cfg : Cfg) (r : RR) (p : Bool) (buf : Bytes)
+    (ht : r.request.isTrace = false) (hcl : r.request.headers.contentLength > (cfg.maxContent : Int)) :
+    (RR.receiveBody cfg r p buf).2.2 = .invalid ∧ (RR.receiveBody cfg r p buf).1.code = 413 := by
+  have h0 : ¬ r.request.headers.contentLength < 0 := by omega
+  have h1 : r.request.headers.contentLength > 0 := by omega
+  unfold RR.receiveBody
+  simp [ht, h0, h1, hcl, RR.clear]
+
+/-- a body exactly at the limit is not rejected for its size -/
+theorem C02_content_length_at_limit (cfg : Cfg) (r : RR) (p : Bool) (buf : Bytes)
+    (ht : r.request.isTrace = false) (hpos : 0 < r.request.headers.contentLength)
+    (hcl : r.request.headers.contentLength = (cfg.maxContent : Int)) :
+    (RR.receiveBody cfg r p buf).2.2 ≠ .invalid := by
+  have h0 : ¬ r.request.headers.contentLength < 0 := by omega
+  have h2 : ¬ r.request.headers.contentLength > (cfg.maxContent : Int) := by omega
+  unfold RR.receiveBody
+  simp only [ht, Bool.false_eq_true, ↓reduceIte, h0, hpos, decide_true, h2, decide_false, Bool.and_false,
+    Bool.not_true, Bool.false_and]
+  repeat' split
+  all_goals simp
+
+theorem C02_trace_with_body (cfg : Cfg) (r : RR) (p : Bool) (buf : Bytes)
+    (ht : r.request.isTrace = true) (hcl : r.request.headers.contentLength ≠ 0) :
+    (RR.receiveBody cfg r p buf).2.2 = .invalid ∧ (RR.receiveBody cfg r p buf).1.code = 400 := by
+  unfold RR.receiveBody
+  simp [ht, hcl, RR.clear]
+
+/-- a TRACE request without body is passed on with the proposed status 405 (the server answers 405 unless the
+    application enabled the echo) -/
+theorem C02_trace_proposes_405 (cfg : Cfg) (r : RR) (p : Bool)
+    (ht : r.request.isTrace = true) (hcl : r.request.headers.contentLength = 0) (hb : r.body = [])
+    (he : p = false ∨ r.request.expectContinue = false ∨ r.continueSent = true) :
+    (RR.receiveBody cfg r p []).2.2 = .valid ∧ (RR.receiveBody cfg r p []).1.code = 405 := by
+  unfold RR.receiveBody
+  simp only [ht, hcl, beq_self_eq_true, ↓reduceIte]
+  simp [hb, RQ.isHead, RQ.isTrace] at *
+  rcases he with h | h | h <;> simp_all
+
+/-- a request with HTTP/1.1 and no Host header is rejected with 400 whatever follows -/
+theorem C02_missing_host (cfg : Cfg) (r : RR) (buf : Bytes) (hv : r.request.valid = true)
+    (hm : r.request.missingHost = true) :
+    (RR.receive cfg r buf).2.2 = .invalid ∧ (RR.receive cfg r buf).1.code = 400 := by
+  unfold RR.receive
+  simp [hv, hm]
+
+/-- non-vacuity of the limit-edge theorems: a state at the method limit exists for every configuration -/
+example (cfg : Cfg) : ∃ s : RL, s.st = .method ∧ s.method.length = cfg.maxMethod :=
+  ⟨{ method := List.replicate cfg.maxMethod 65 }, rfl, by simp⟩
+
 end Via
